@@ -119,7 +119,8 @@ def run_case(case, ctx):
                     ctx.fail("read-failed", "%s: get_best_mutable_version failed: %r" % (desc(), rv))
                     return
                 r = g.run(rv[1].update(mutfile.mdata(new), off))
-                core = size > 0 and not (fmt == "mdmf" and off == size and size % seg == 0)
+                segeff = -(-seg // k) * k   # MDMF rounds the segment size up to a multiple of k
+                core = size > 0 and not (fmt == "mdmf" and off == size and size % segeff == 0)
                 if r[0] == "ok":
                     model[off:off + ln] = new
                     end = off + ln
